@@ -23,6 +23,7 @@ import (
 
 	"github.com/google/uuid"
 
+	"github.com/hyperjumptech/grule-rule-engine/ast/unique"
 	"github.com/hyperjumptech/grule-rule-engine/pkg"
 	"github.com/hyperjumptech/grule-rule-engine/pkg/simhook"
 )
@@ -298,7 +299,13 @@ func (e *KnowledgeBase) RemoveRuleEntry(name string) {
 		//mark the rule as deleted and change the rule name to DELETED_XXX_XXXXX to avoid duplicate rule entry issue
 		//Note: This is a workaround, will improve this logic a bit in near future
 		ruleEntry := e.RuleEntries[name]
-		e.RuleEntries[name].RuleName = fmt.Sprintf("Deleted_%s", ruleEntry.RuleName)
+		tombstone := fmt.Sprintf("Deleted_%s", ruleEntry.RuleName)
+		for e.ContainsRuleEntry(tombstone) {
+			// the name was removed before, reused by a new rule and is now removed again: the earlier
+			// tombstone must stay in the map, its nodes are still registered in the working memory.
+			tombstone = fmt.Sprintf("Deleted_%s_%s", ruleEntry.RuleName, unique.NewID())
+		}
+		e.RuleEntries[name].RuleName = tombstone
 		e.RuleEntries[name].Deleted = true
 		delete(e.RuleEntries, name)
 		e.RuleEntries[ruleEntry.RuleName] = ruleEntry
